@@ -9,6 +9,7 @@ import (
 	"path/filepath"
 	"strconv"
 	"strings"
+	"sync"
 
 	"github.com/go-git/go-billy/v5"
 	"github.com/go-git/go-billy/v5/osfs"
@@ -207,6 +208,78 @@ func runRepo(v Vec, dir string) string {
 	return ""
 }
 
+// loadFails: directories whose clock files cannot be opened for reading at the moment (a transient I/O error at the first use of a
+// clock after a restart). The hook that gives every repository of this process its file system is set once, in Run.
+var loadFails sync.Map
+
+type loadFailFS struct {
+	billy.Filesystem
+}
+
+func (f loadFailFS) failing(name string) bool {
+	v, ok := loadFails.Load(f.Root())
+	return ok && v.(bool) && strings.Contains(name, "clocks")
+}
+func (f loadFailFS) Open(name string) (billy.File, error) {
+	if f.failing(name) {
+		return nil, fmt.Errorf("injected: input/output error")
+	}
+	return f.Filesystem.Open(name)
+}
+func (f loadFailFS) OpenFile(name string, flag int, perm os.FileMode) (billy.File, error) {
+	if f.failing(name) && flag&(os.O_WRONLY|os.O_RDWR) == 0 {
+		return nil, fmt.Errorf("injected: input/output error")
+	}
+	return f.Filesystem.OpenFile(name, flag, perm)
+}
+
+// runRepoLoadFails: as runRepo, but after every reopening the first use of the clock meets a file that cannot be read: the call
+// has to say so and must leave the file alone (a clock that cannot be loaded is not a clock that does not exist); the next use
+// finds the clock where it was.
+func runRepoLoadFails(v Vec, dir string) string {
+	repo, err := repository.InitGoGitRepo(dir, "git-bug")
+	hx.Must(err)
+	_, err = repo.GetOrCreateClock("x-edit")
+	hx.Must(err)
+	file := filepath.Join(dir, ".git", "git-bug", "clocks", "x-edit")
+	root := filepath.Join(dir, ".git", "git-bug")
+	for i, o := range v.Ops {
+		ret := 0
+		switch o.Op {
+		case "inc":
+			t, err := repo.Increment("x-edit")
+			hx.Must(err)
+			ret = int(t)
+		case "witness":
+			hx.Must(repo.Witness("x-edit", lamport.Time(o.V)))
+		case "reload":
+			_ = repo.Close()
+			repo, err = repository.OpenGoGitRepo(dir, "git-bug", nil)
+			if err != nil {
+				return fmt.Sprintf("op %d: reopen failed: %v", i, err)
+			}
+			before := readFile(file)
+			loadFails.Store(root, true)
+			t, ierr := repo.Increment("x-edit")
+			werr := repo.Witness("x-edit", 1)
+			loadFails.Store(root, false)
+			if ierr == nil || werr == nil {
+				return fmt.Sprintf("op %d: the clock file could not be read after the reopening; Increment returned %d, %v and Witness %v", i, t, ierr, werr)
+			}
+			if after := readFile(file); after != before {
+				return fmt.Sprintf("op %d: the clock file could not be read after the reopening: it held %d and holds %d now", i, before, after)
+			}
+		}
+		c, err := repo.GetOrCreateClock("x-edit")
+		hx.Must(err)
+		if why := check(i, v.Exp[i], int(c.Time()), readFile(file), ret, true); why != "" {
+			return why
+		}
+	}
+	_ = repo.Close()
+	return ""
+}
+
 // runRepoHandle: the same through GoGitRepo with a clock handle that is kept (as code holding on to a clock does): after every
 // (re)opening the handle is asked once, operations go alternately through the handle and through the repository, and both have to
 // show the same clock all along - there is one clock per name in a process, whoever asks for it.
@@ -290,7 +363,8 @@ func Run(args []string) {
 		persist bool
 		f       func(Vec, string) string
 	}
-	impls := []im{{"MemClock", false, runMem}, {"PersistedClock", true, runPersisted}, {"GoGitRepo", true, runRepo}, {"GoGitRepo (kept handle)", true, runRepoHandle}, {"MockRepo", false, runMock}}
+	impls := []im{{"MemClock", false, runMem}, {"PersistedClock", true, runPersisted}, {"GoGitRepo", true, runRepo}, {"GoGitRepo (kept handle)", true, runRepoHandle}, {"GoGitRepo (load fails)", true, runRepoLoadFails}, {"MockRepo", false, runMock}}
+	repository.VerifWrapLocalStorage = func(fs billy.Filesystem) billy.Filesystem { return loadFailFS{fs} }
 	executed := make([]int, len(lines))
 	hx.Parallel(len(lines), 0, func(i int) {
 		var v Vec
